@@ -66,9 +66,38 @@ def check(run, prog, tier):
     run.rule("C09-L", "the accessors read the component dictionaries the way the builders write them (keys, list by position), "
                       "and copying the components of a function into itself terminates", minimum=4)
     rule_L(run, prog)
+    run.rule("C09-N", "the even and odd Fourier parts of a function given by several components refuse components at different "
+                      "temperatures, as the correlation function built from the same list does", minimum=2)
+    rule_N(run, prog)
     run.rule("C09-M", "a temperature (or any other optional argument) given explicitly to a method of a bath function replaces the "
                       "value held in the components; only the None default leaves them as they are", minimum=3)
     rule_M(run, prog)
+
+
+def rule_N(run, prog):
+    """'components at different temperatures are refused': EvenFTCorrelationFunction and OddFTCorrelationFunction build one
+    CorrelationFunction per component dictionary and add the transforms - each of these has one component, so the check in
+    CorrelationFunction never sees two temperatures.  The loop over the components contains a refusal (an `if` that
+    raises) whose test compares temperatures."""
+    rid = "C09-N"
+    n = 0
+    for cname in ("EvenFTCorrelationFunction", "OddFTCorrelationFunction"):
+        cls = prog.cls(CF + cname)
+        f = cls.methods["__init__"]
+        prog.consulted.add(f.relpath)
+        loops = [l_ for l_ in walk_no_nested(f.node) if isinstance(l_, ast.For)
+                 and any(isinstance(c_, ast.Call) and call_name(c_) == "CorrelationFunction" for c_ in ast.walk(l_))]
+        if not loops:
+            raise AnalysisError("%s.__init__: loop over the components not found" % cname)
+        n += 1
+        refusal = any(isinstance(i_, ast.If) and any(isinstance(x_, ast.Raise) for x_ in ast.walk(i_))
+                      and ("temperature" in norm(i_.test) or "['T']" in norm(i_.test).replace('"', "'"))
+                      for l_ in loops for i_ in ast.walk(l_))
+        run.obligation(rid, f.short, refusal, key="mixed-temperatures",
+                       message="%s builds one correlation function per component and adds their transforms without comparing the "
+                               "temperatures of the components: a list with T=300 and T=100 is accepted (CorrelationFunction refuses "
+                               "the same list)" % f.short, loc=f.loc(loops[0]))
+    return n
 
 
 def rule_M(run, prog):
